@@ -46,8 +46,10 @@ FixFields(f) ==
      [] OTHER -> {}
 ItemFields(it) == IF it.k = "Num" THEN NumFields(it.n) ELSE IF it.k = "Fix" THEN FixFields(it.f) ELSE {}
 Fields(items) == UNION { ItemFields(items[i]) : i \in 1..Len(items) }
-\* items the reader can invert (%::z, %:::z and %Z are print-only)
-ReadableFixes == {"ShortMonthName", "LongMonthName", "ShortWeekdayName", "LongWeekdayName", "LowerAmPm", "UpperAmPm", "TimezoneOffset", "TimezoneOffsetColon", "RFC3339"} \cup FracFixes
+\* items the reader can invert (%::z and %:::z are print-only; %Z prints the offset but, when read, only skips a word:
+\* "offset will not be populated from the parsed data" - it contributes no field)
+ReadableFixes == {"ShortMonthName", "LongMonthName", "ShortWeekdayName", "LongWeekdayName", "LowerAmPm", "UpperAmPm", "TimezoneOffset", "TimezoneOffsetColon", "RFC3339",
+                  "TimezoneName"} \cup FracFixes
 Readable(it) == it.k \in {"Lit", "Space", "Num"} \/ (it.k = "Fix" /\ it.f \in ReadableFixes)
 \* the parse-only %#z reads what %z, %:z or %:::z wrote
 PermissiveReads == {Fix("TimezoneOffset"), Fix("TimezoneOffsetColon"), Fix("TimezoneOffsetTripleColon")}
@@ -67,7 +69,7 @@ StartSet(it) ==
      [] it.k = "Fix" -> (CASE it.f = "Nanosecond" -> {"dot", "empty"}                      \* %.f prints nothing for a whole second
                            [] it.f \in {"Nanosecond3", "Nanosecond6", "Nanosecond9"} -> {"dot"}
                            [] it.f \in {"Nanosecond3NoDot", "Nanosecond6NoDot", "Nanosecond9NoDot"} -> {"digit"}
-                           [] it.f \in {"TimezoneOffset", "TimezoneOffsetColon", "TimezoneOffsetDoubleColon", "TimezoneOffsetTripleColon"} -> {"sign"}
+                           [] it.f \in {"TimezoneOffset", "TimezoneOffsetColon", "TimezoneOffsetDoubleColon", "TimezoneOffsetTripleColon", "TimezoneName"} -> {"sign"}
                            [] it.f = "RFC3339" -> {"digit", "sign"}
                            [] OTHER -> {"letter"})
      [] OTHER -> {"other"}
@@ -75,7 +77,7 @@ RECURSIVE Follow(_, _)
 Follow(items, i) == IF i > Len(items) THEN {"end"}
                     ELSE LET s == StartSet(items[i]) IN (s \ {"empty"}) \cup (IF "empty" \in s THEN Follow(items, i + 1) ELSE {})
 \* a number printed narrower than the widest the reader accepts must not be followed by a digit; a fraction by digits;
-\* a full name by letters; %.f (which may be empty) neither by a digit nor a dot; %#z reads to the end
+\* a full name by letters; %.f (which may be empty) neither by a digit nor a dot; %#z reads to the end, %Z to the next white space
 Everything == {"digit", "space", "sign", "dot", "letter", "colon", "other"}
 Avoid(it) ==
    CASE it.k = "Num" -> (IF it.n \in OneDigitNums THEN {}
@@ -86,6 +88,7 @@ Avoid(it) ==
                            [] it.f \in {"Nanosecond3", "Nanosecond6", "Nanosecond9"} -> {"digit"}
                            [] it.f \in {"LongMonthName", "LongWeekdayName"} -> {"letter"}
                            [] it.f = "TimezoneOffsetPermissive" -> Everything
+                           [] it.f = "TimezoneName" -> Everything \ {"space"}          \* skips all non-whitespace characters
                            [] OTHER -> {})
      [] OTHER -> {}
 Separated(w, r) == \A i \in 1..Len(w) : Avoid(r[i]) \cap Follow(w, i + 1) = {}
